@@ -14,3 +14,4 @@ INVARIANT Narrowing
 INVARIANT QuiescentIsDefault
 PROPERTY Restores
 PROPERTY Isolation
+PROPERTY RefusedIsNoop
